@@ -1439,6 +1439,8 @@ class Interp:
             zs = v.z3()
             if zs is not None:
                 return z3.Length(zs) > 0
+            if all(isinstance(p, Atom) and getattr(p, "nonempty_iff", None) is not None for p in v.parts):
+                return z3.Or(*[p.nonempty_iff for p in v.parts])
             raise Unsupported("truth of possibly-empty symbolic string")
         if isinstance(v, SSeq):
             return to_int(v.length) > 0
